@@ -48,8 +48,15 @@ reg("C12", True, "exploration", "property-based testing of class expressions aga
 reg("C13", True, "exploration", "property-based differential testing: ASCII vs UTF-8 entry points on generated ASCII haystacks",
     "Random search; patterns may mention non-ASCII characters and fold partners; haystacks over all 128 bytes; every start; both executors and pipelines.",
     "Trusted: fuel hook.", "3 C13")
-for i in (14, 15, 20):
-    reg("C%02d" % i, False, "exploration", "", "", "", "3 C%02d" % i)
+reg("C14", True, "exploration", "property-based differential testing inside a utf16-feature build: UTF-16/UCS-2 entry points vs the UTF-8 search with offset translation; fuzzed u16 noise for safety",
+    "Random search (release and debug-assertion builds with regress' utf16 feature): find_from_utf16 / find_from_ucs2 must equal find_from on the same text; arbitrary u16 slices must be handled without panic, hang or out-of-range results.",
+    "The UTF-8 search of the same build is the reference. Fuel hook.", "3 C14")
+reg("C15", True, "exploration", "property-based cross-configuration differential: one generated case answered by six runner processes built with different regress feature sets",
+    "Random search; every observable (compile verdict, matches, captures, replace_all, named groups) must be byte-identical across default / index-positions / prohibit-unsafe / both / utf16 / alloc-only builds.",
+    "Runners use the public API only; runaway cases are pre-screened with the fuel hook.", "3 C15")
+reg("C20", True, "exploration", "stateful property-based testing of the Searcher / ReverseSearcher step streams (generated next/next_back interleavings) + str-method models, nightly pattern-feature build",
+    "Random search; forward and reverse step streams must tile the haystack on char boundaries, Match steps must equal find_iter, Done sticky; interleaved use stays in range; str::{find,contains,matches,match_indices,split,splitn,split_terminator,strip_prefix} equal models.",
+    "find_iter is the reference for the matches. Which matches the reverse searcher reports is not prescribed by the property.", "3 C20")
 reg("C19", True, "exploration", "compile-time auto-trait probe + stateful property-based testing (query histories vs fresh compile, Debug snapshot) + generated thread schedules",
     "(a) a probe crate asserts Regex/Match/Error: Send+Sync at compile time; (b) generated query histories on a long-lived Regex must equal fresh-compile results and leave the compiled program's Debug dump unchanged; (c) 2-16 threads sharing &Regex/clones must reproduce the sequential results.",
     "(c) samples OS schedules only (no synchronisation exists for a schedule controller to steer); safety rests on (a)+(b). Fuel hook.", "3 C19")
